@@ -620,8 +620,8 @@ func main() {
 	c.Exhaustive(scope)
 
 	// (b) built texts, (c) dirty texts
-	runBuilt(c, coll, c.N(1000000, 10000000))
-	runDirty(c, coll, c.N(500000, 5000000))
+	runBuilt(c, coll, c.N(3000000, 10000000))
+	runDirty(c, coll, c.N(1500000, 5000000))
 
 	// report one (shortest) witness per failure class
 	fps := make([]string, 0, len(coll.m))
